@@ -240,6 +240,20 @@ impl Hist {
 		tx
 	}
 
+	/// A transaction spending `input` with an NRD kernel whose key — hence excess and signature — is a function
+	/// of `kernel_prng` alone: calling this again with the same prng state gives the SAME kernel.
+	pub fn nrd_tx(&mut self, input: &Coin, rel: u64, kernel_prng: &Prng) -> Transaction {
+		let fee = 1_000_000u64;
+		assert!(input.value > fee);
+		let k = self.fresh_key();
+		let mut p = kernel_prng.clone();
+		let (tx, coins) = self
+			.world
+			.tx(&mut p, &[input.clone()], &[(input.value - fee, k)], crate::world::nrd(fee, rel));
+		self.register(&coins);
+		tx
+	}
+
 	/// A transaction spending `input` into one fresh output plus one output that
 	/// re-creates `recreate` (same key and value → same commitment).
 	pub fn recreate_tx(&mut self, input: &Coin, recreate: &Coin) -> Option<Transaction> {
